@@ -327,6 +327,10 @@ class BaseCommand(FlockMixin, ABC):
             exit_code = await self.run()
         except KeyboardInterrupt:
             exit_code = 128 + signal.SIGINT
+        # asyncio.run() turns a real SIGINT into a cancellation of this task.
+        except asyncio.CancelledError:
+            exit_code = 128 + signal.SIGINT
+            raise
         # Ensure that META.json gets written in the case a
         # command calls sys.exit().
         except SystemExit as e:
